@@ -360,6 +360,38 @@ def run(ctx: Ctx):
                     if not ok:
                         ctx.fail("P:C16:identities", {"cls": cls.__name__, "start_only": repr(dt), "fold": fold}, obs, [repr(dt), repr(dt.utcoffset())])
 
+    # ------------------------------------------------------------- subclasses of date / datetime / timedelta; sub-second durations
+    class _D(date):
+        pass
+
+    class _DT(datetime):
+        pass
+
+    class _TD(timedelta):
+        pass
+    for cls in (Event, Todo):
+        for start, dur, want_end, want_dur in (
+                (_D(2024, 1, 2), None, date(2024, 1, 3), timedelta(days=1)),
+                (_DT(2024, 1, 2, 10, 0), None, datetime(2024, 1, 2, 10, 0), timedelta(0)),
+                (date(2024, 1, 2), _TD(days=2), date(2024, 1, 4), timedelta(days=2)),
+                (_D(2024, 1, 2), timedelta(days=1), date(2024, 1, 3), timedelta(days=1)),
+                (date(2024, 1, 2), timedelta(days=1, milliseconds=250), date(2024, 1, 3), timedelta(days=1)),
+                (datetime(2024, 1, 2, 10, 0), timedelta(hours=1, microseconds=5), datetime(2024, 1, 2, 11, 0, 0, 5), timedelta(hours=1, microseconds=5))):
+            c = cls()
+            ctx.evaluations += 1
+            ctx.case(("subtypes", cls.__name__, repr(start), repr(dur)), True)
+            try:
+                c.start = start
+                if dur is not None:
+                    c.DURATION = dur
+                end, d = c.end, c.duration
+                ok = end == want_end and d == want_dur and d == end - c.start and isinstance(end, datetime) == isinstance(want_end, datetime)
+                obs = [repr(end), repr(d)]
+            except Exception as e:   # noqa: BLE001
+                ok, obs = False, type(e).__name__ + ": " + str(e)[:80]
+            if not ok:
+                ctx.fail("P:C16:identities", {"cls": cls.__name__, "start": repr(start), "DURATION": repr(dur)}, obs, [repr(want_end), repr(want_dur)])
+
     # ------------------------------------------------------------- RECORD: arbitrary times
     nseq = 60 if ctx.quick else 600
     kinds = ["date", "naive", "utc", "zoned"]
